@@ -28,6 +28,12 @@ func TestGen(t *testing.T) {
 		} else {
 			genLambda(t, out, budget)
 		}
+	case "C28":
+		if replay != "" {
+			replayNodeDown(t, out, replay)
+		} else {
+			genNodeDown(t, out, budget)
+		}
 	default:
 		t.Fatalf("unknown VERIF_PROPERTY %q", os.Getenv("VERIF_PROPERTY"))
 	}
